@@ -103,7 +103,7 @@ PROPS = {
     'C05': dict(
         title='One entry per distinct type: aliases share an id, distinct types never merge',
         level='proof',
-        technique='Verus: interner duplicate-freeness + register_type "present => unchanged" postcondition + ghost evaluation counter; generic identity obligations generated per TypeInfo impl (rustc-expanded)',
+        technique='Verus: interner duplicate-freeness + register_type "present => unchanged" postcondition + ghost evaluation counter; minimality clause of the trait contract and theorem_exactly_reachable (interned iff reachable from a registered root); generic identity obligations generated per TypeInfo impl (rustc-expanded)',
         level_text='register_type ensures: identity already present => table and definitions unchanged and the existing id returned; a ghost counter asserted before every .type_info() call proves the definition is evaluated at most once per call and only for an identity absent on entry. For every TypeInfo impl of src/impls.rs (macro-generated ones included) a generic proof obligation is generated: transparent wrappers (Box, Rc, Arc, &, &mut, Vec, VecDeque, String, PhantomData) have the identity of their target for ALL type arguments incl. nested ones, every other impl has identity Self (with TypeId injectivity: never shares an id); MetaType::new is proved to store TypeId::of::<T::Identity>(). "Exactly one entry per identity REACHABLE from what was registered": theorem_exactly_reachable - in a registry rooted in the registered identities (history invariant, lemma_rooted_step) an identity is interned if and only if it is reachable from a root; no other entry is ever created (minimality clause of the trait contract, proved for the Registry functions and all 14 impls).',
         level_note='TypeId::of injectivity is an assumption about std (A4). Derived impls (`type Identity = Self` emitted by the proc-macro) and user-written impls are outside the obligations.',
         verus=[('interner', INTERNER_ITEMS), ('registry', ['Registry::intern_type_id', 'Registry::register_type', 'Registry::register_types', 'Registry::map_into_portable', 'tmpl::lemma_one_entry_per_identity', 'tmpl::theorem_exactly_reachable', 'tmpl::lemma_rooted_*', 'tmpl::lemma_reach_*', 'tmpl::lemma_path_closed', 'tmpl::lemma_succ_closed', 'tmpl::lemma_img_mentions', 'tmpl::lemma_type_reaches']), ('registry_impls', IMPL_ITEMS),
@@ -137,7 +137,7 @@ PROPS = {
     'C12': dict(
         title='Runtime builder and interner behave as an append-only duplicate-free table',
         level='proof',
-        technique='Verus contracts (abstract view = list, representation invariant) on the extracted Interner and PortableRegistryBuilder functions; history lemma',
+        technique='Verus contracts (abstract view = list, representation invariant) on the extracted Interner and PortableRegistryBuilder functions incl. finish (rule R20); history lemma',
         level_text='Every Interner and builder operation is proved, for all element types, values and prior states satisfying the representation invariant, to behave exactly like the duplicate-free list that is its abstract view (new value -> appended and the next free index, equal value -> its first index and nothing changes, get/resolve -> stored value or None); each operation requires only the invariant and re-establishes it, so the statement holds for every finite history (lemma_builder_history over operation scripts).',
         level_note='PortableRegistryBuilder::new IS verified (derived Default impl taken from the rustc expansion, Interner::default, Interner::new). finish (`elements().iter().enumerate().map(|(i, ty)| ..).collect()`) IS verified after rule R20 (an iterator pipeline ending in collect into a Vec is replaced by the loop std defines it by: next() until None, results pushed in order): entry i of the result carries id i and the i-th registered value; the native builder scripts run it on the real iterators (a Kani harness over <= 2 registrations did not finish in 40 minutes - BTreeMap keyed by Type<PortableForm> under CBMC - and was removed); Kani builder_new_is_empty cross-checks new on the real code. Assumed: BTreeMap entry API contract, lawful Ord/Clone of Type<PortableForm>. Ids guaranteed up to 2^32 entries.',
         verus=[('interner', INTERNER_ITEMS), ('portable', ['PortableRegistryBuilder::*', '::core::default::Default for PortableRegistryBuilder::default', 'tmpl::lemma_builder_history'])],
@@ -147,7 +147,7 @@ PROPS = {
     'C14': dict(
         title='Decoding untrusted registry bytes never panics and is canonical (SCALE decode and resolve clauses proved; JSON clause bounded only; memory not covered)',
         level='proof',
-        technique='Verus: total-function contract on PortableRegistry::resolve; canonicity theorem and panic-freedom of the derive-generated decoders (no precondition, every callee precondition discharged)',
+        technique='Verus: total-function contract on PortableRegistry::resolve; canonicity theorem and panic-freedom of the derive-generated decoders (no precondition, every callee precondition discharged); Kani: the dependency scalar decoders and the derived leaf decoders on every input (complete, loop-free); memory and JSON clauses bounded natively',
         level_text='resolve(id) is proved, for EVERY registry value and every u32, to return Some(entry at position id) when id is in range and None otherwise; it has no precondition, so it cannot panic. The 17 derive-generated decode functions are verified without any precondition on the input: Verus discharges every callee precondition and arithmetic check in them, so the crate\'s own decoding code cannot panic on any byte string and returns Ok or Err. theorem_canonical: whatever decodes successfully re-encodes to exactly the bytes that were consumed.',
         level_note='JSON deserialisation (serde-derive visitors driving serde_json) is NOT under contract: bounded native leg only (about 100k corrupted JSON texts: no panic, accepted texts are registries). Memory proportional to the input is NOT a contract here (no verifier in reach reasons about allocation): bounded native check only - a counting allocator records the largest single allocation request while every byte position of the small encodings is overwritten with the compact encodings of 100 000, 2^30 - 1 and u32::MAX; budget 1 MiB + 1 KiB per input byte. The dependency\'s primitive decoders are assumed to satisfy the Decode contract of the model (see C06); for Compact<u32>, u32 and Option that contract - and with it panic-freedom on every input - is discharged on the REAL dependency code by the complete Kani leaves dec_*_all_inputs (every input of at most 6 / 7 / 10 / 11 bytes, loop-free); Vec and String remain assumed. Stack depth is not considered.',
         verus=[('portable', ['PortableRegistry::resolve']), ('codec', ['crate::scale::Decode for *::decode', 'tmpl::lemma_*', 'tmpl::theorem_canonical'])],
@@ -169,7 +169,7 @@ PROPS = {
     'C17': dict(
         title='Builders are lossless and order preserving; PhantomData members are erased',
         level='proof',
-        technique='Verus full functional postconditions on every builder function of src/build.rs and the src/ty constructors, verified twice (docs feature on / off)',
+        technique='Verus full functional postconditions on every public function of src/build.rs (audited by name against the unit), the src/ty constructors incl. TypeDefTuple::new (rule R20) and the accessors, verified twice (docs feature on / off)',
         level_text='Every builder step is proved to produce exactly the supplied component and leave all others unchanged (FieldBuilder, VariantBuilder, Variants, FieldsBuilder, TypeBuilder, Type::new, Field::new, Variant::new, TypeDef*::new); MetaForm push_field lists a field unless its type is PhantomData, PortableForm push_field always; docs()/docs_portable() keep docs exactly with the docs feature and are the identity without it, docs_always() always keeps them. Closure-taking builders are specified through the closure\'s own requires/ensures.',
         level_note='TypeDefTuple::new (`into_iter().filter(|ty| !ty.is_phantom()).collect()`; the prophetic Filter spec of vstd cannot be connected to Seq::filter) IS verified after rule R20 (an iterator pipeline ending in collect into a Vec is replaced by the loop std defines it by: next() until None, results pushed in order): the result is exactly the non-phantom members in order; the native enumeration of all member triples runs it on the real iterators (CBMC ran out of memory on a Kani harness for it). MetaType::new / is_phantom contracts are proved in unit metatype. Initial emptiness comes from the Default impls (verified). The derive\'s generated code is not in the repository and not covered. Assumed: to_vec contract.',
         verus=[('build', ['*'])],
